@@ -126,42 +126,15 @@ theorem find_none_filter {a : Ent} (bs : List Ent) (h : bs.find? (sameKey a) = n
   have := List.find?_eq_none.mp h y hy
   simpa using this
 
-/-- one HEAD rule: the state is the reference state, and every base rule of its key is consumed -/
-theorem matchOne_spec (a : Ent) (hn : a.name ≠ "") (bs : List Ent) (hU : UniqueKeys bs) :
-    stateOf (matchOne bs a).1 = specState bs a ∧ (matchOne bs a).1.after = some a ∧
-    (matchOne bs a).2 = bs.filter (fun x => !sameKey a x) := by
-  have ht := takeIdentical_spec a hn bs hU
-  cases hf : bs.find? (sameKey a) with
-  | none =>
-    rw [hf] at ht
-    simp only at ht
-    simp [matchOne, ht, byName, find_none_filter bs hf, stateOf, specState, hf]
-  | some b =>
-    rw [hf] at ht
-    simp only at ht
-    have hkb : sameKey a b = true := by simpa using List.find?_some hf
-    cases hid : identical a b with
-    | true =>
-      have hc : (b.content == a.content) = true := by
-        simp only [identical, Bool.and_eq_true, beq_iff_eq] at hid
-        simp [hid.2]
-      simp only [matchOne, ht.1 hid, stateOf, specState, hf, hc, Bool.true_and]
-      refine ⟨?_, trivial, trivial⟩
-      cases hp : (a.path != b.path) <;> cases hd : (b.disabled == a.disabled) <;> simp
-    | false =>
-      have hc : (b.content == a.content) = false := by
-        simp only [identical, sameKey, Bool.and_eq_true, beq_iff_eq] at hid hkb
-        cases h : (b.content == a.content) with
-        | false => rfl
-        | true =>
-          have : b.content = a.content := by simpa using h
-          simp [hkb.1, hkb.2, this] at hid
-      simp only [matchOne, ht.2 hid, byName, filter_key_of_find bs hU hf, stateOf, specState, hf, hc, Bool.false_and]
-      refine ⟨?_, trivial, trivial⟩
-      cases hp : (a.path != b.path) <;> simp
-
 theorem unique_filter {l : List Ent} (p : Ent → Bool) (h : UniqueKeys l) : UniqueKeys (l.filter p) :=
   List.Pairwise.filter p h
+
+theorem sameKey_symm {a b : Ent} (h : sameKey a b = true) : sameKey b a = true := by
+  simp only [sameKey, Bool.and_eq_true, beq_iff_eq] at h ⊢; exact ⟨h.1.symm, h.2.symm⟩
+
+theorem sameKey_congr {a a' : Ent} (h : sameKey a a' = true) (x : Ent) : sameKey a x = sameKey a' x := by
+  simp only [sameKey, Bool.and_eq_true, beq_iff_eq] at h
+  simp [sameKey, h.1, h.2]
 
 theorem find_filter_other {a a' : Ent} (h : sameKey a a' = false) (bs : List Ent) :
     (bs.filter fun x => !sameKey a x).find? (sameKey a') = bs.find? (sameKey a') := by
@@ -175,36 +148,232 @@ theorem find_filter_other {a a' : Ent} (h : sameKey a a' = false) (bs : List Ent
         cases h' : sameKey a' x with
         | false => rfl
         | true =>
-          have h1 : sameKey x a' = true := by
-            simp only [sameKey, Bool.and_eq_true, beq_iff_eq] at h' ⊢; exact ⟨h'.1.symm, h'.2.symm⟩
-          have h2 : sameKey x a = true := by
-            simp only [sameKey, Bool.and_eq_true, beq_iff_eq] at hax ⊢; exact ⟨hax.1.symm, hax.2.symm⟩
-          rw [sameKey_trans_left h2 h1] at h; exact absurd h (by simp)
+          rw [sameKey_trans_left (sameKey_symm hax) (sameKey_symm h')] at h; exact absurd h (by simp)
       simp [List.filter_cons, hax, List.find?_cons, this, ih]
 
-theorem specState_filter_other {a a' : Ent} (h : sameKey a a' = false) (bs : List Ent) :
-    specState (bs.filter fun x => !sameKey a x) a' = specState bs a' := by
-  simp only [specState, find_filter_other h]
+theorem find_filter_same {a a' : Ent} (h : sameKey a a' = true) (bs : List Ent) :
+    (bs.filter fun x => !sameKey a x).find? (sameKey a') = none := by
+  apply List.find?_eq_none.mpr
+  intro x hx
+  have := (List.mem_filter.mp hx).2
+  rw [← sameKey_congr h x]
+  simpa using this
+
+/-- two members of a list with unique keys that share a key are the same entry -/
+theorem unique_eq {l : List Ent} (hU : UniqueKeys l) {x y : Ent} (hx : x ∈ l) (hy : y ∈ l) (h : sameKey x y = true) : x = y := by
+  induction l with
+  | nil => simp at hx
+  | cons z zs ih =>
+    have hz := List.pairwise_cons.mp hU
+    rcases List.mem_cons.mp hx with rfl | hx' <;> rcases List.mem_cons.mp hy with rfl | hy'
+    · rfl
+    · rw [hz.1 y hy'] at h; exact absurd h (by simp)
+    · have := sameKey_symm h
+      rw [hz.1 x hx'] at this; exact absurd this (by simp)
+    · exact ih hz.2 hx' hy'
+
+/-- how the current list of unclaimed base rules relates to the original one: every key in `ks` is gone, every other
+key looks up as in the original -/
+def Agree (before cur : List Ent) (ks : List Ent) : Prop :=
+  UniqueKeys cur ∧ ∀ x, cur.find? (sameKey x) = if ks.any (fun k => sameKey k x) then none else before.find? (sameKey x)
+
+theorem agree_refl (before : List Ent) (h : UniqueKeys before) : Agree before before [] := ⟨h, fun x => by simp⟩
+
+theorem agree_consume {before cur ks : List Ent} (hA : Agree before cur ks) (a : Ent) :
+    Agree before (cur.filter fun x => !sameKey a x) (a :: ks) := by
+  refine ⟨unique_filter _ hA.1, fun x => ?_⟩
+  cases hax : sameKey a x with
+  | true => simp [find_filter_same hax, hax]
+  | false => simp [find_filter_other hax, hA.2 x, hax]
+
+/-- identical entry found for `a` in the original base list -/
+def identMatched (before : List Ent) (a : Ent) : Bool :=
+  match before.find? (sameKey a) with
+  | some b => identical a b
+  | none => false
+
+/-- what the first pass leaves for one HEAD rule -/
+def p1spec (before : List Ent) (a : Ent) : Matched :=
+  match before.find? (sameKey a) with
+  | some b => if identical a b then { before := some b, after := some a, isIdentical := b.disabled == a.disabled, wasMoved := a.path != b.path }
+              else { before := none, after := some a, isIdentical := false, wasMoved := false }
+  | none => { before := none, after := some a, isIdentical := false, wasMoved := false }
+
+theorem pass1One_spec {before cur ks : List Ent} (hA : Agree before cur ks) (a : Ent) (hn : a.name ≠ "")
+    (hk : ks.any (fun k => sameKey k a) = false) :
+    (pass1One cur a).1 = p1spec before a ∧
+    Agree before (pass1One cur a).2 (if identMatched before a then a :: ks else ks) := by
+  have ht := takeIdentical_spec a hn cur hA.1
+  have hfind := hA.2 a
+  rw [hk] at hfind
+  simp only [Bool.false_eq_true, if_false] at hfind
+  rw [hfind] at ht
+  cases hf : before.find? (sameKey a) with
+  | none =>
+    rw [hf] at ht
+    simp only at ht
+    simp [pass1One, ht, p1spec, hf, identMatched, hA]
+  | some b =>
+    rw [hf] at ht
+    simp only at ht
+    cases hid : identical a b with
+    | true =>
+      simp only [pass1One, ht.1 hid, p1spec, hf, hid, if_true, identMatched, true_and]
+      exact agree_consume hA a
+    | false =>
+      simp only [pass1One, ht.2 hid, p1spec, hf, hid, identMatched, Bool.false_eq_true, if_false, true_and]
+      exact hA
+
+theorem pass1_spec (before : List Ent) :
+    ∀ (after cur ks : List Ent), Agree before cur ks → UniqueKeys after → (∀ a ∈ after, a.name ≠ "") →
+      (∀ a ∈ after, ks.any (fun k => sameKey k a) = false) →
+      (pass1 cur after).1 = after.map (p1spec before) ∧
+      ∃ ks', Agree before (pass1 cur after).2 ks' ∧
+        ∀ k ∈ ks', k ∈ ks ∨ (k ∈ after ∧ identMatched before k = true) := by
+  intro after
+  induction after with
+  | nil => intro cur ks hA _ _ _; exact ⟨rfl, ks, hA, fun k hk => Or.inl hk⟩
+  | cons a as ih =>
+    intro cur ks hA hU hN hK
+    have h1 := pass1One_spec hA a (hN a (by simp)) (hK a (by simp))
+    have hUas := (List.pairwise_cons.mp hU)
+    have hK' : ∀ a' ∈ as, (if identMatched before a then a :: ks else ks).any (fun k => sameKey k a') = false := by
+      intro a' ha'
+      have h0 := hK a' (by simp [ha'])
+      cases hm : identMatched before a <;> simp [h0, hUas.1 a' ha']
+    obtain ⟨hmap, ks', hA', hks'⟩ := ih (pass1One cur a).2 _ h1.2 hUas.2 (fun x hx => hN x (by simp [hx])) hK'
+    refine ⟨by simp [pass1, h1.1, hmap], ks', hA', fun k hk => ?_⟩
+    rcases hks' k hk with h | h
+    · cases hm : identMatched before a with
+      | false => rw [hm] at h; exact Or.inl (by simpa using h)
+      | true =>
+        rw [hm] at h
+        rcases List.mem_cons.mp (by simpa using h) with rfl | h'
+        · exact Or.inr ⟨by simp, hm⟩
+        · exact Or.inl h'
+    · exact Or.inr ⟨by simp [h.1], h.2⟩
+
+theorem state_p1spec_matched {before : List Ent} {a : Ent} (hm : identMatched before a = true) :
+    stateOf (p1spec before a) = specState before a := by
+  unfold identMatched at hm
+  cases hf : before.find? (sameKey a) with
+  | none => simp [hf] at hm
+  | some b =>
+    rw [hf] at hm
+    simp only at hm
+    have hc : (b.content == a.content) = true := by
+      simp only [identical, Bool.and_eq_true, beq_iff_eq] at hm
+      simp [hm.2]
+    simp only [p1spec, hf, hm, if_true, stateOf, specState, hc, Bool.true_and]
+    cases hp : (a.path != b.path) <;> cases hd : (b.disabled == a.disabled) <;> simp
+
+theorem pass2One_spec {before cur ks : List Ent} (hA : Agree before cur ks) (a : Ent)
+    (hk : identMatched before a = false → ks.any (fun k => sameKey k a) = false) :
+    stateOf (pass2One cur (p1spec before a)).1 = specState before a ∧
+    (pass2One cur (p1spec before a)).1.after = some a ∧
+    Agree before (pass2One cur (p1spec before a)).2 (if identMatched before a then ks else a :: ks) := by
+  cases hm : identMatched before a with
+  | true =>
+    have hs := state_p1spec_matched hm
+    have hb : ∃ b, (p1spec before a).before = some b ∧ (p1spec before a).after = some a := by
+      unfold identMatched at hm
+      cases hf : before.find? (sameKey a) with
+      | none => simp [hf] at hm
+      | some b => rw [hf] at hm; simp only at hm; exact ⟨b, by simp [p1spec, hf, hm]⟩
+    obtain ⟨b, hb1, hb2⟩ := hb
+    simp only [pass2One, hb1, hb2, hs, if_true, true_and]
+    exact hA
+  | false =>
+    have hk' := hk hm
+    have hfind := hA.2 a
+    rw [hk'] at hfind
+    simp only [Bool.false_eq_true, if_false] at hfind
+    have hp : p1spec before a = { before := none, after := some a, isIdentical := false, wasMoved := false } := by
+      unfold identMatched at hm
+      cases hf : before.find? (sameKey a) with
+      | none => simp [p1spec, hf]
+      | some b => rw [hf] at hm; simp only at hm; simp [p1spec, hf, hm]
+    rw [hp]
+    cases hf : before.find? (sameKey a) with
+    | none =>
+      rw [hf] at hfind
+      have hp2 : pass2One cur { before := none, after := some a, isIdentical := false, wasMoved := false } =
+          ({ before := none, after := some a, isIdentical := false, wasMoved := false }, cur.filter fun x => !sameKey a x) := by
+        simp [pass2One, byName, find_none_filter cur hfind]
+      rw [hp2]
+      refine ⟨by simp [stateOf, specState, hf], rfl, ?_⟩
+      simpa using agree_consume hA a
+    | some b =>
+      rw [hf] at hfind
+      have hnid : identical a b = false := by unfold identMatched at hm; rw [hf] at hm; exact hm
+      have hkb : sameKey a b = true := by simpa using List.find?_some hf
+      have hc : (b.content == a.content) = false := by
+        simp only [identical, sameKey, Bool.and_eq_true, beq_iff_eq] at hnid hkb
+        cases h : (b.content == a.content) with
+        | false => rfl
+        | true =>
+          have : b.content = a.content := by simpa using h
+          simp [hkb.1, hkb.2, this] at hnid
+      have hp2 : pass2One cur { before := none, after := some a, isIdentical := false, wasMoved := false } =
+          ({ before := some b, after := some a, isIdentical := false, wasMoved := a.path != b.path }, cur.filter fun x => !sameKey a x) := by
+        simp [pass2One, byName, filter_key_of_find cur hA.1 hfind]
+      rw [hp2]
+      refine ⟨?_, rfl, ?_⟩
+      · simp only [stateOf, specState, hf, hc, Bool.false_and]
+        cases hp' : (a.path != b.path) <;> simp
+      · simpa using agree_consume hA a
+
+theorem pass2_spec (before : List Ent) :
+    ∀ (as cur ks : List Ent), Agree before cur ks → UniqueKeys as →
+      (∀ a ∈ as, identMatched before a = false → ks.any (fun k => sameKey k a) = false) →
+      (pass2 cur (as.map (p1spec before))).1.map stateOf = as.map (specState before) ∧
+      (pass2 cur (as.map (p1spec before))).1.map (·.after) = as.map some := by
+  intro as
+  induction as with
+  | nil => intro cur ks _ _ _; simp [pass2]
+  | cons a as ih =>
+    intro cur ks hA hU hK
+    have h1 := pass2One_spec hA a (hK a (by simp))
+    have hUas := List.pairwise_cons.mp hU
+    have hK' : ∀ a' ∈ as, identMatched before a' = false →
+        (if identMatched before a then ks else a :: ks).any (fun k => sameKey k a') = false := by
+      intro a' ha' hm'
+      have h0 := hK a' (by simp [ha']) hm'
+      cases hm : identMatched before a <;> simp [h0, hUas.1 a' ha']
+    have hrest := ih (pass2One cur (p1spec before a)).2 _ h1.2.2 hUas.2 hK'
+    simp [pass2, h1.1, h1.2.1, hrest.1, hrest.2]
 
 /-- **C03, matching**: with unique rule keys on both sides and non-empty names, the HEAD rules get, in order, exactly
 the reference states; whatever the number of rules. -/
-theorem match_states :
-    ∀ (after before : List Ent), UniqueKeys before → UniqueKeys after → (∀ a ∈ after, a.name ≠ "") →
-      (matchAfter before after).1.map stateOf = after.map (specState before) ∧
-      (matchAfter before after).1.map (·.after) = after.map some := by
-  intro after
-  induction after with
-  | nil => intro before _ _ _; simp [matchAfter]
-  | cons a as ih =>
-    intro before hB hA hN
-    have h1 := matchOne_spec a (hN a (by simp)) before hB
-    have hAas : UniqueKeys as := (List.pairwise_cons.mp hA).2
-    have hrest := ih (matchOne before a).2 (by rw [h1.2.2]; exact unique_filter _ hB) hAas (fun x hx => hN x (by simp [hx]))
-    simp only [matchAfter, List.map_cons, h1.1, h1.2.1, hrest.2, List.cons.injEq, true_and, and_true]
-    rw [hrest.1, h1.2.2]
-    apply List.map_congr_left
-    intro a' ha'
-    exact specState_filter_other ((List.pairwise_cons.mp hA).1 a' ha') before
+theorem match_states (after before : List Ent) (hB : UniqueKeys before) (hA : UniqueKeys after)
+    (hN : ∀ a ∈ after, a.name ≠ "") :
+    (matchAfter before after).1.map stateOf = after.map (specState before) ∧
+    (matchAfter before after).1.map (·.after) = after.map some := by
+  obtain ⟨hmap, ks', hAg, hks'⟩ := pass1_spec before after before [] (agree_refl before hB) hA hN (by simp)
+  unfold matchAfter
+  rw [hmap]
+  apply pass2_spec before after _ ks' hAg hA
+  intro a ha hm
+  apply List.any_eq_false.mpr
+  intro k hk
+  rcases hks' k hk with h | h
+  · simp at h
+  · cases hka : sameKey k a with
+    | false => simp
+    | true =>
+      have := unique_eq hA h.1 ha hka
+      rw [this] at h
+      rw [h.2] at hm
+      exact absurd hm (by simp)
+
+
+/-- the matching before the `fix:` commit: a warning alert added above the existing critical alert of the same name
+claims its base version by name, the untouched rule comes out `added`; the two-pass matching keeps it `noop` -/
+theorem old_matching_misclassifies_untouched :
+    let crit : Ent := { alert := true, name := "HostDown", content := 1, disabled := 0, path := "a.yml" }
+    let warn : Ent := { alert := true, name := "HostDown", content := 2, disabled := 0, path := "a.yml" }
+    (matchAfterOld [crit] [warn, crit]).1.map stateOf = [.modified, .added] ∧
+    (matchAfter [crit] [warn, crit]).1.map stateOf = [.added, .noop] := by decide
 
 /-- the HEAD part of `matchEntries` is `matchAfter`; the leftovers are the removed rules -/
 theorem matchEntries_head (before after : List Ent) :
